@@ -194,6 +194,11 @@ def step (st : St) (line : String) : St × List String :=
           match parse (toks.length + 1) toks [] with
           | none => (st, ["bad-op"])
           | some calls =>
+            -- value-free shape run over the definedness pattern the calls produced
+            -- (`P3R.C19.session_shape_fail_err`: "sshape no" forces an error whatever the values)
+            let ssh := match applyCalls c (Array.replicate c.witnessCount none) calls with
+              | .ok w => if runShape c (w.map Option.isSome) then "sshape ok" else "sshape no"
+              | .error _ => "sshape n/a"
             match session canonPF c calls with
             | .ok t =>
             -- the ALU records (what the ALU table rows will carry): the C10 theorems speak about them
@@ -201,8 +206,8 @@ def step (st : St) (line : String) : St × List String :=
               | .add => "add" | .mul => "mul" | .boolCheck => "bool" | .mulAdd => "muladd" | .horner => "horner"
             let recS := fun (r : AluRec (PF st.p)) => s!"{kindS r.kind}:{r.aVal},{r.bVal},{r.cVal},{r.outVal}"
             (st, [s!"run ok {" ".intercalate (t.witness.toList.map toString)}",
-                  s!"recs {" ".intercalate (t.alu.toList.map recS)}"])
-            | .error e => (st, [s!"run err {errStr e}"])
+                  s!"recs {" ".intercalate (t.alu.toList.map recS)}", ssh])
+            | .error e => (st, [s!"run err {errStr e}", ssh])
       | "run", np :: rest =>
         match st.c with
         | none => (st, ["bad-op"])
